@@ -38,6 +38,7 @@ LEVEL_TEXT = ("A state machine builds a module with a global G, a function readi
               "after every step the module's G and getG() must be 'orig', directive.DEFAULT_RUNTIME_STATE must equal its "
               "pristine deep copy, the shared option dict must be unchanged, sys.stdout and the warning filters must be the "
               "ones found before. Randomised exploration of histories with shrinking.")
+LEVEL_ADDED = ("Further templates: a doctest that leaves a task pending on the event loop, a doctest that awaits a sleep (a left-over task must never run during it); after every run, inside the harness's own redirection, sys.stdout / sys.stderr must be the very streams that run started under.")
 LEVEL_NOTE = ("Trusted: the expectation table (each entry is cross-checked by a solo run of a freshly collected doctest at "
               "machine start; a disagreement there is reported as such, not as a history effect). State that legitimately "
               "persists (the imported module object and whatever a doctest stores into it by attribute assignment) is not used "
